@@ -128,7 +128,15 @@ def keyword_from_hash(kw_hash: int, name: str, ns: str | None = None) -> Keyword
 
     with _LOCK:
         found = _INTERN.val_at(kw_hash)
-        if found:
+        if found is not None and found._name == name and found._ns == ns:
+            return found
+        # `kw_hash` may have been computed by another process (cached namespace
+        # bytecode, a pickle) whose string hash seed differs from ours. Keywords
+        # are always interned under the hash computed by *this* process so every
+        # route to a keyword yields the same object.
+        kw_hash = hash_kw(name, ns)
+        found = _INTERN.val_at(kw_hash)
+        if found is not None:
             return found
         kw = Keyword(name, ns=ns)
         _INTERN = _INTERN.assoc(kw_hash, kw)
